@@ -472,6 +472,9 @@ func cmdPairs(args []string) {
 					dd.R[16], dd.R[17] = bv[r.Intn(8)], bv[(i/4)%8]
 					dd.R[18], dd.R[19] = bv[r.Intn(8)], bv[(i/4+3)%8]
 				}
+				// the relation is about executing the instruction: no request is pending (an accepting Step does not
+				// fetch it, and its vector table may lie on the prefix byte)
+				dd.Pend = []int{}
 				EmitPair(dd, w)
 			}
 		}
